@@ -255,7 +255,29 @@ func c10run(o *out, c c10cfg) {
 	var infoMono int32 = 1
 	var snaps [][]byte
 	var snapMu sync.Mutex
-	obs.Add(2)
+	obs.Add(4)
+	// two observers that do nothing but Info: readers of the synchronized collector that are inside it together (Info
+	// holds the read lock only, so whatever it calls must not write)
+	for w := 0; w < 2; w++ {
+		go func() {
+			defer obs.Done()
+			defer func() {
+				if rec := recover(); rec != nil {
+					atomic.AddInt32(&panics, 1)
+				}
+			}()
+			<-start
+			for {
+				select {
+				case <-stop:
+					return
+				default:
+				}
+				_ = coll.Info()
+				runtime.Gosched()
+			}
+		}()
+	}
 	go func() {
 		defer obs.Done()
 		defer func() {
